@@ -149,6 +149,7 @@ func c20(r *core.Run) {
 	r.Rule("T1", "one transaction: every Set/SetEntry/Delete on a badger.Txn in the middleware is made on the parameter of a closure passed directly to DB.Update, and that closure also reads the resource key before writing it", 10)
 	r.Rule("G1", "guards: add rejects len<idx, remove rejects len<=idx, create rejects an existing or defaulted resource, change and remove reject a missing resource without default - each by returning its sentinel from the closure on an edge that does not reach the write", 10)
 	r.Rule("S1", "sibling agreement: the two middleware copies have the same guard -> sentinel sets in each of the five apply handlers", 5)
+	r.Rule("I1", "default stays immutable: the handler's default bytes (served for every resource that is not stored yet) are never a destination: the buffer handed to Item.ValueCopy is nil or freshly made, never (a variable that may hold) the default field, and no element of the default field is stored to", 6)
 	r.Rule("D1", "old values: the change handler treats a property as absent only on the not-present edge of a comma-ok lookup on the stored model and records the looked-up value or the delete action as old value; the delete handler returns the bytes read in the same transaction before the delete", 6)
 
 	want := map[string][]string{
@@ -234,6 +235,30 @@ func c20(r *core.Run) {
 	for _, name := range []string{"applyChange", "applyAdd", "applyRemove", "applyCreate", "applyDelete"} {
 		a, b := sigs[mwPkgs[0].rel][name], sigs[mwPkgs[1].rel][name]
 		r.Check(strings.Join(a, ";") == strings.Join(b, ";"), "S1", name, "guards-agree(middleware,resbadger)", "-", fmt.Sprintf("both: %v", a), fmt.Sprintf("the two middleware copies disagree: middleware %v vs resbadger %v", a, b))
+	}
+	// ---- I1 --------------------------------------------------------------
+	for _, mp := range mwPkgs {
+		for _, fn := range p.FuncsOfPkg(mp.rel) {
+			for _, c := range core.Calls(fn) {
+				cal := c.Common().StaticCallee()
+				if cal == nil || cal.Name() != "ValueCopy" || !strings.Contains(cal.String(), "badger") || len(c.Common().Args) < 2 {
+					continue
+				}
+				alias, why := mayHoldField(c.Common().Args[1], 0)
+				r.Check(!alias, "I1", core.FuncName(fn), "ValueCopy-destination-is-not-the-default", p.InstrPos(c), "the copy destination is nil / a fresh buffer", "Item.ValueCopy writes into "+why+": the stored value overwrites the handler's shared default bytes, so every resource that is not stored yet is afterwards served (and folded) from another resource's data")
+			}
+			for _, b := range fn.Blocks {
+				for _, in := range b.Instrs {
+					if st, ok := in.(*ssa.Store); ok {
+						if ia, ok := st.Addr.(*ssa.IndexAddr); ok {
+							if f, ok := core.LoadedField(ia.X); ok && isByteSlice(ia.X.Type()) && strings.HasSuffix(f.Struct, mp.typ) {
+								r.Bad("I1", core.FuncName(fn), "no-element-store-into-"+f.String(), p.InstrPos(st), "an element of the handler's byte field is overwritten")
+							}
+						}
+					}
+				}
+			}
+		}
 	}
 	// ---- D1 --------------------------------------------------------------
 	for _, mp := range mwPkgs {
@@ -407,4 +432,73 @@ func argReachesUnmarshal(c ssa.CallInstruction, i, depth int) bool {
 		}
 	}
 	return false
+}
+
+func isByteSlice(t types.Type) bool {
+	sl, ok := t.Underlying().(*types.Slice)
+	if !ok {
+		return false
+	}
+	b, ok := sl.Elem().Underlying().(*types.Basic)
+	return ok && b.Kind() == types.Uint8
+}
+
+// mayHoldField: v may be (a slice of) a struct field's value: a field load,
+// or a local / captured variable or phi one of whose sources is.
+func mayHoldField(v ssa.Value, depth int) (bool, string) {
+	if depth > 6 || v == nil {
+		return false, ""
+	}
+	v = core.Strip(v)
+	if f, ok := core.LoadedField(v); ok {
+		return true, "the field " + f.String()
+	}
+	switch x := v.(type) {
+	case *ssa.Const, *ssa.MakeSlice, *ssa.Call, *ssa.Extract:
+		return false, ""
+	case *ssa.Slice:
+		return mayHoldField(x.X, depth+1)
+	case *ssa.Phi:
+		for _, e := range x.Edges {
+			if e == v {
+				continue
+			}
+			if ok, w := mayHoldField(e, depth+1); ok {
+				return true, w
+			}
+		}
+	case *ssa.UnOp:
+		if x.Op != token.MUL {
+			return false, ""
+		}
+		cell := x.X
+		if fv, ok := cell.(*ssa.FreeVar); ok {
+			cell = core.BindingOf(fv)
+		}
+		al, ok := cell.(*ssa.Alloc)
+		if !ok {
+			return false, ""
+		}
+		for _, f2 := range withAnon(core.Outermost(al.Parent())) {
+			for _, b := range f2.Blocks {
+				for _, in := range b.Instrs {
+					st, ok := in.(*ssa.Store)
+					if !ok {
+						continue
+					}
+					tgt := st.Addr
+					if fv, ok := tgt.(*ssa.FreeVar); ok {
+						tgt = core.BindingOf(fv)
+					}
+					if tgt != ssa.Value(al) {
+						continue
+					}
+					if ok, w := mayHoldField(st.Val, depth+1); ok {
+						return true, "a variable that may hold " + w
+					}
+				}
+			}
+		}
+	}
+	return false, ""
 }
